@@ -131,6 +131,21 @@ Section O.
       apply (Hmax b (bsupport b obs)); auto. apply Hqb. split; [reflexivity | exact Hb1].
     Qed.
 
+    (* C09 liveness, first round of the cycle: a unit of work that some valid observation proposes and
+       that is neither in the retained history nor agreed in this round is surfaced, stamped with the
+       quorum block, unless the round is full of proposals sorting at or before it *)
+    Theorem outcome_surfaced_live p : (1 <= l_rounds lim)%nat -> snd lq = true -> In p (flat_map o_props obs) ->
+      ~ In (p_wid p) (all_wids (oc_surfaced prev)) -> ~ In (p_wid p) (map r_wid (oc_agreed out)) ->
+      exists q, p_wid q = p_wid p /\ t_num (p_trig q) = bk_num (fst lq) /\ t_hash (p_trig q) = bk_hash (fst lq) /\
+        (In q (hd [] (oc_surfaced out)) \/
+         (length (hd [] (oc_surfaced out)) = l_perround lim /\
+          forall y, In y (hd [] (oc_surfaced out)) -> shuf (p_wid y) <= shuf (p_wid q))).
+    Proof.
+      intros Hl Hq Hin Hh Ha. rewrite out_surfaced.
+      exact (surfaced_live shuf pi_b pi_b_perm tb (l_rounds lim) (l_perround lim) Hl bv (flat_map o_props obs) (oc_agreed out)
+               (oc_surfaced prev) p Hq Hin Hh Ha).
+    Qed.
+
     Theorem outcome_no_block_quorum : snd lq = false ->
       (forall b, (tb <= bsupport b obs)%nat -> (1 <= bsupport b obs)%nat -> bk_hash b = 0) /\
       oc_surfaced out = carry (oc_agreed out) (oc_surfaced prev).
